@@ -775,6 +775,36 @@ func (t *FnTrans) localHere(name string) (SVal, bool) {
 		}
 	}
 	if defs, ok := t.locals["&"+name]; ok && len(defs) >= 1 {
+		// several variables of that name (different scopes): the one declared last before this point
+		var pick *ssa.Alloc
+		for i := range defs {
+			a := defs[i].v.(*ssa.Alloc)
+			if _, ok := t.vals[a]; !ok {
+				continue
+			}
+			if a.Pos() > t.curInstr.Pos() && t.curInstr.Pos().IsValid() {
+				continue
+			}
+			if pick == nil || a.Pos() > pick.Pos() {
+				pick = a
+			}
+		}
+		if pick != nil {
+			v := t.vals[pick]
+			T := t.resolve(pick.Type().(*types.Pointer).Elem())
+			p := v.P
+			if p == nil {
+				p = t.ptrFromRef(v.S, T)
+			}
+			// a single-assignment cell: its stored value
+			if st, ok := t.singleAssignCache[pick]; ok && st != nil {
+				if sv, has := t.vals[st.Val]; has || isConst(st.Val) {
+					_ = sv
+					return SVal{S: t.term(st.Val), T: T, Sort: t.sortOf(T)}, true
+				}
+			}
+			return SVal{S: t.load(p), T: T, Sort: t.sortOf(T)}, true
+		}
 		return t.localAt(name, b, t.cur)
 	}
 	var best *localDef
@@ -930,6 +960,9 @@ func (t *FnTrans) instr(in ssa.Instruction) {
 	case *ssa.MakeChan:
 		r := t.allocRef()
 		t.bind(x, r)
+		// a new channel is open
+		cc := t.comp("CH.closed", "(Array Int Bool)")
+		t.cur.H[cc] = app("store", t.get(cc), t.vals[x].S, "false")
 	case *ssa.MakeClosure:
 		fn := x.Fn.(*ssa.Function)
 		var b []Val
